@@ -95,7 +95,7 @@ func genCli(g *G, n int, out io.Writer) {
 	}
 	for _, in := range inputs {
 		emit("validate", "", false, in.kind, in.p, in.d)
-		for _, prior := range []string{"absent", "empty", "shorter", "longer"} {
+		for _, prior := range []string{"absent", "empty", "shorter", "longer", "same-size"} {
 			emit("validate", prior, true, in.kind, in.p, in.d)
 		}
 		emit("generate", "", false, in.kind, in.p, in.d)
@@ -129,6 +129,11 @@ func genCli(g *G, n int, out io.Writer) {
 	}
 	enc.Encode(CliCase{Op: "cli", Id: id, Sub: "validate", ToFile: true, Prior: "absent", Kind: "fault:out-dir-missing", Fault: "out-dir-missing", Profile: okProfile, Data: okData})
 	id++
+	// a subcommand the tool does not have (a capital letter, a typo): nothing is validated, and the exit status says so
+	for _, sub := range []string{"Validate", "validat", "check", ""} {
+		enc.Encode(CliCase{Op: "cli", Id: id, Sub: "validate", Kind: "fault:unknown-subcommand:" + sub, Fault: "unknown-subcommand:" + sub, Profile: okProfile, Data: okData})
+		id++
+	}
 	for _, in := range bad {
 		emit("validate", "", false, in.kind, in.p, in.d)
 		emit("validate", "longer", true, in.kind, in.p, in.d)
